@@ -74,6 +74,10 @@ import tempfile  # noqa: E402
 
 _OUT = tempfile.mkdtemp(prefix="xsplit-", dir="/dev/shm" if os.path.isdir("/dev/shm") else None)
 os.makedirs(os.path.join(_OUT, "job-stdio"), exist_ok=True)
+import atexit  # noqa: E402
+import shutil  # noqa: E402
+
+atexit.register(shutil.rmtree, _OUT, True)
 os.environ.setdefault("JADE_REGISTRY", os.path.join(_OUT, "registry.json"))
 os.environ.setdefault("MPLCONFIGDIR", os.path.join(_OUT, "mpl"))
 import logging  # noqa: E402
